@@ -203,9 +203,11 @@ def VV_any():
 
 def score_add_post(c):
     t = [e for e in c.trace if e[0] in ('build', 'process', 'queue-add')]
-    if [e[0] for e in t] != ['build', 'process', 'queue-add']:
+    if sorted(e[0] for e in t) != ['build', 'process', 'queue-add'] or t[-1][0] != 'queue-add':
         return _z3.BoolVal(False)
-    build, proc, qadd = t
+    build = [e for e in t if e[0] == 'build'][0]
+    proc = [e for e in t if e[0] == 'process'][0]
+    qadd = t[-1]
     now = _z3.Real('main.current_tt._seconds')
     b = c._params['bndl']
     ok = (len(build[1]) == 2 and build[1][0].k == 'real' and build[1][1] is b
